@@ -1,5 +1,5 @@
 SPECIFICATION Spec
-CONSTANTS Kinds = {"plain", "mixed"}
+CONSTANTS Kinds = {"plain", "mixed", "enc"}
           MixedServerSet = {"none", "rel"}
           MixedCoreServers = {}
           MixedMethKeys = {"G", "P", "GP"}
